@@ -21,7 +21,7 @@ FLAKY = {"github.com/wrgl/wrgl/csvgen::TestRootCmd", "github.com/wrgl/wrgl/pkg/a
 
 def run(cmd, cwd, timeout=900):
     try:
-        p = subprocess.run(cmd, cwd=cwd, env=ENV, shell=True, capture_output=True, text=True, timeout=timeout)
+        p = subprocess.run(cmd, cwd=cwd, env=ENV, shell=True, capture_output=True, text=True, errors='replace', timeout=timeout)
         return p.returncode, p.stdout + p.stderr
     except subprocess.TimeoutExpired as e:
         return 124, "TIMEOUT\n" + (e.stdout or "") if isinstance(e.stdout, str) else "TIMEOUT"
@@ -74,7 +74,7 @@ def main():
     if rc != 0:
         result["steps"]["apply"] = {"rc": rc, "tail": out[-400:]}
         print(json.dumps(result, indent=1)); sys.exit(1)
-    rc, out = run("go build ./...", wt)
+    rc, out = run("go build $(go list ./... | grep -v /mutations)", wt)
     result["steps"]["build_with_mutation"] = {"rc": rc, "tail": out[-400:]}
     okb = rc == 0
     put_demo()
@@ -83,7 +83,7 @@ def main():
     ok2 = rc != 0
     rm_demo()
     # 3. existing suite with the mutation
-    rc, out = run("go test -mod=mod -json -vet=off -count=1 -timeout 25m ./...", wt, timeout=1800)
+    rc, out = run("go test -mod=mod -json -vet=off -count=1 -timeout 25m $(go list ./... | grep -v /mutations)", wt, timeout=1800)
     failed = set()
     for line in out.split("\n"):
         try: e = json.loads(line)
